@@ -152,6 +152,31 @@ pub fn specs(thorough: bool) -> Vec<(String, Vec<RuleSpec>)> {
             ));
         }
     }
+    // several comments per rule (the union of comment sets has more than the trivial branches)
+    for op in OPS {
+        out.push((
+            format!("twocm_{}", op_tag(op)),
+            vec![
+                spec(n, KindSpec::NonClosed, Sel::Empty, vec![SpanSpec::Free], vec!["c", "d"]),
+                spec(op, KindSpec::NonClosed, Sel::TuWe, vec![SpanSpec::Free], vec!["a", "b", "e"]),
+            ],
+        ));
+        out.push((
+            format!("twocm2_{}", op_tag(op)),
+            vec![
+                spec(n, KindSpec::NonClosed, Sel::TuWe, vec![SpanSpec::Free], vec!["a", "b", "e", "f"]),
+                spec(op, KindSpec::NonClosed, Sel::Empty, vec![SpanSpec::Free], vec!["c", "d"]),
+            ],
+        ));
+    }
+    out.push((
+        "threecm".into(),
+        vec![
+            spec(n, KindSpec::Is(RuleKind::Open), Sel::Empty, vec![SpanSpec::Within], vec!["c"]),
+            spec(RuleOperator::Additional, KindSpec::Is(RuleKind::Open), Sel::Empty, vec![SpanSpec::Within], vec!["d", "e"]),
+            spec(RuleOperator::Additional, KindSpec::Is(RuleKind::Open), Sel::Empty, vec![SpanSpec::Within], vec!["a", "b", "f"]),
+        ],
+    ));
     // three rules: operator pairs x a family of selector triples, kinds forked
     let triples: &[(Sel, Sel, Sel)] = if thorough {
         &[
